@@ -36,6 +36,8 @@ QUESTIONS: Dict[str, List[Tuple[str, int, bool]]] = {
     # QU first, QM last, all about the service announced last (its answers are under the one-second protection at 400 ms)
     "ptrb-qu+ab-qm": [("_b._tcp.local.", 12, True), (S3.server, 1, False)],
     "srvb-qu+ptrb-qm": [(S3.name, 33, True), ("_b._tcp.local.", 12, False)],
+    # a question for the root name next to one the host answers (a legacy reply has to echo both)
+    "root-qm+ptr-qm": [(".", 255, False), (TA, 12, False)],
 }
 # ages of the host's own last multicast (ms after the last announcement looped back) around ttl/4 of 60/120/300/4500 s
 AGES = {"400ms": 400, "fresh": 5_000, "15s-1": 14_999, "15s": 15_000, "15s+1": 15_001, "30s-1": 29_999, "30s": 30_000, "30s+1": 30_001,
